@@ -20,7 +20,7 @@ CACHE = os.path.join(VERIF, ".cache")
 
 FAMILIES = {
     "C01": ["ctor", "insrem"], "C02": ["access"], "C03": ["views"],
-    "C04": ["views", "swapfill", "copy", "translate", "sort"],
+    "C04": ["views", "access", "swapfill", "copy", "translate", "sort"],
     "C05": ["insrem"], "C06": ["insrem"], "C07": ["insrem"],
     "C08": ["rows"], "C09": ["cols"], "C10": ["cells"], "C11": ["panicsafe"], "C12": ["leak"],
     "C13": ["swapfill"], "C14": ["copy"], "C15": ["translate"], "C16": ["sort"], "C17": ["sort"],
